@@ -23,12 +23,14 @@ void w_regions_clear(void) { NREG = 0; NNOH = 0; }
 
 void w_region(void *p, size_t n, int hashed)
 {
+    for (int i = 0; i < NREG; i++) if (REG[i].p == (uint8_t *)p && REG[i].n == n) { REG[i].hashed = hashed; return; }      /* a world that is built a second time registers the same globals again */
     if (NREG >= W_MAX_REG) { fprintf(stderr, "world: too many regions\n"); exit(2); }
     REG[NREG].p = p; REG[NREG].n = n; REG[NREG].hashed = hashed; NREG++;
 }
 
 void w_nohash_range(void *p, size_t n)
 {
+    for (int i = 0; i < NNOH; i++) if (NOH[i].p == (uint8_t *)p && NOH[i].n == n) return;
     if (NNOH >= 16) { fprintf(stderr, "world: too many nohash ranges\n"); exit(2); }
     NOH[NNOH].p = p; NOH[NNOH].n = n; NNOH++;
 }
